@@ -124,7 +124,10 @@ type DiffOpts struct {
 	Again bool
 	// UsedBefore: the DiffContext is not new: it has just written a patch for another pair (the new build
 	// against ITSELF as the old build), then its exported target fields are set to the real old build
-	UsedBefore  bool
+	UsedBefore bool
+	// ReverseDirs: the directory lists of both containers are reversed (children before parents): a container
+	// walked from a zip lists its directories in map order, a hand-built one in any order
+	ReverseDirs bool
 	WrapPool    func(lake.Pool) lake.Pool
 	PatchWriter func(io.Writer) io.Writer
 	SigWriter   func(io.Writer) io.Writer
@@ -151,6 +154,13 @@ func Diff(oldDir, newDir string, comp Comp, opts *DiffOpts) (*DiffOut, error) {
 	sc, err := Walk(newDir)
 	if err != nil {
 		return nil, fmt.Errorf("walk new: %w", err)
+	}
+	if opts != nil && opts.ReverseDirs {
+		for _, c := range []*tlc.Container{tc, sc} {
+			for i, j := 0, len(c.Dirs)-1; i < j; i, j = i+1, j-1 {
+				c.Dirs[i], c.Dirs[j] = c.Dirs[j], c.Dirs[i]
+			}
+		}
 	}
 	pool, err := poolOf(sc, newDir)
 	if err != nil {
